@@ -77,7 +77,7 @@ Curated == <<
   << <<1, -2, 1, 0>>, <<-2, 1, 0, 1>>, <<0, 1, -2, 1>> >>,
   << <<0, 0, 0>>, <<0, 0, 0>>, <<0, 0, 0>> >>,
   << <<1, 1, 0>>, <<1, 1, 0>>, <<0, 0, 1>> >>,
-  << <<3, 0, 0, 1>>, <<-2, 1, 0, 0>>, <<0, 0, 0, 0>> >>,
+  << <<0, 0, 0>>, <<-3, 1, 3>>, <<-2, 1, 0>> >>,
   << <<2, 1, 1, 0>>, <<-3, 1, 0, 2>>, <<1, -2, 2, -1>> >>,
   \* m = 4
   << <<1, 0, 0, 0>>, <<0, 0, 0, 0>>, <<0, 1, 0, 0>>, <<1, 1, 1, 1>> >>,
@@ -103,9 +103,9 @@ GenJ(k, m) == LET n == 3 + (k % 2)
               IN  [r \in 1..m |-> [c \in 1..n |->
                      ((k * k * 7 + k * (r * 5 + c * 3) + r * 13 + c * 29 + r * c * 11 + (k \div 3) * r) % (2 * a + 1)) - a]]
 
-\* curated instance 15 (third row zero) carries ALL its preference weight on the zero-gradient row
+\* curated instance 15 (first row zero) carries ALL its preference weight on the zero-gradient row
 MkInst(id, k, Jm) == [id |-> id, m |-> Len(Jm), n |-> Len(Jm[1]), J |-> Jm,
-                      P |-> IF id = 15 THEN <<0, 0, 3>> ELSE ParamP(k, Len(Jm)), W |-> ParamW(k, Len(Jm))]
+                      P |-> IF id = 15 THEN <<2, 0, 0>> ELSE ParamP(k, Len(Jm)), W |-> ParamW(k, Len(Jm))]
 
 Instances ==
     {MkInst(i, i, Curated[i]) : i \in {q \in 1..Len(Curated) : Len(Curated[q]) \in RowCounts}}
